@@ -39,9 +39,11 @@ Proof.
 Qed.
 Print Assumptions C14_new_rejects_bad_epic.
 
-(** prune removes an epic only together with all of its children. *)
+(** prune removes an epic only together with all of its children.  ([i <> ""]: an item's epic field "" means "no epic",
+    so an epic whose id is the empty string - impossible through the CLI, possible in a hand-written log - has no
+    children by definition; prune.go guards its child count with [task.EpicID != ""] and the model follows it.) *)
 Theorem C14_prune_keeps_parents : forall g i t k c,
   Inv g -> i ∈ prune_targets g -> g_tasks g !! i = Some t -> t_is_epic t = true ->
-  g_tasks g !! k = Some c -> t_is_epic c = false -> t_epic c = i -> t_state c = "done" \/ t_state c = "canceled".
+  g_tasks g !! k = Some c -> t_is_epic c = false -> t_epic c = i -> i <> "" -> t_state c = "done" \/ t_state c = "canceled".
 Proof. intros. eapply prune_epic_has_no_remaining_child; eauto. Qed.
 Print Assumptions C14_prune_keeps_parents.
